@@ -562,7 +562,7 @@ fn main() {
         // keep the longest prefix of the evolution that satisfies A1–A7 (DESIGN.md §4.2)
         let mut keep = 0;
         for i in 0..evo.len() {
-            if assume::violated(&evo[i]).is_some() || (i > 0 && assume::retypes_fk_endpoint(&evo[i - 1], &evo[i])) {
+            if assume::violated(&evo[i]).is_some() || (i > 0 && (assume::retypes_fk_endpoint(&evo[i - 1], &evo[i]) || assume::case_clash(&evo[i - 1], &evo[i]))) {
                 break;
             }
             keep = i + 1;
